@@ -153,3 +153,7 @@ func verifModel_P256OrdMul(in1, in2 []byte) ([]byte, error) {
 	}
 	return verifUF("fn.mul.comm", 32, in1, in2), nil
 }
+
+// the package's init only maps the embedded generator table (unsafe conversion); the abstract group never
+// reads it
+func verifModel_noinit() {}
